@@ -26,6 +26,7 @@ use proptest::{
 use serde::{Deserialize, Serialize, de::DeserializeOwned};
 use serde_json::{Value, json};
 
+pub mod fuzz;
 pub mod shard;
 
 pub const VERIF_ROOT: &str = "/verif";
@@ -884,6 +885,12 @@ where
             return st;
         }
     };
+    // a replay file names its sub-check: other sub-checks of the property ignore it
+    if let Ok(v) = serde_json::from_str::<Value>(&txt) {
+        if v.get("sub").and_then(|s| s.as_str()).is_some_and(|s| s != sub) {
+            return st;
+        }
+    }
     let rf: ReplayFile<C> = match serde_json::from_str(&txt) {
         Ok(r) => r,
         Err(e) => {
